@@ -30,7 +30,7 @@ ASSUMPTIONS = [
 
 def gen(rng):
     for _ in range(20):
-        g = pg.ProgGen(random.Random(rng.random()), "provide", nclasses=rng.randint(2, 4))
+        g = pg.ProgGen(random.Random(rng.random()), "provide", nclasses=rng.randint(2, 4), pyrender=True)
         prog = g.program()
         refs = [e1run.reference(prog, m) for m in ("django", "isolated")]
         if all(r[0] != "unspec" for r in refs):
